@@ -210,6 +210,13 @@ void run_efun (int f, mixed a, mixed b) {
   case 88:   // a mapping with more than 256 and more than 65536/256 nodes, released at once
     m = ([ ]); for (i1 = 0; i1 < 300; i1++) m[i1] = (i1 & 7) ? i1 : ({ a }); r = m; m = 0; r = sizeof (r) + sizeof (keys (r));
     break;
+  case 89:   // bind() of function pointers compiled into an object's own / inherited program: the copy counts on the same func_ref
+    // (the harness master denies binding to another object: that path ends in f_bind's error after its pushes)
+    if (objectp (obs[0])) {
+      q = obs[0]->mkff (1); l2 = bind (q, obs[0]); l1 = bind (obs[0]->mkff (2), obs[0]); r = evaluate (l2, a);
+      q = ({ l1, l2, obs[0]->mkff (3), obs[0]->mkff (0) }); r = catch (bind (q[2], this_object ())); r = bind (q[3], this_object ());
+    }
+    break;
   case 39: r = allocate_mapping (3); r["k"] = ({ a }); r[({ b })] = r["k"] + raise (b); break;
   }
 }
@@ -231,6 +238,7 @@ int do_op (string line) {
   case "newcls": v[a] = new (class c06cls); break;
   case "newbuf": v[a] = allocate_buffer (b); break;
   case "newfun": v[a] = obs[b]->mkfun (v[c]); break;
+  case "newffun": v[a] = obs[b]->mkff (c); break;
   case "fill": {
     mixed *arr = allocate (b);
     int i;
